@@ -341,12 +341,10 @@ def register(chk):
     chk.add("gt-bases", ob_gt_bases)
     chk.add("gt-loop", ob_gt_loop)
     chk.add("composition", ob_composition)
-    try:
-        import c10
-        if hasattr(c10, "ob_powersofx_random"):
-            chk.add("powersofx-random", c10.ob_powersofx_random)
-    except ImportError:
-        pass
+    import c10_sampling
+    chk.add("powersofx-random", c10_sampling.ob_powersofx_random)
+    if hasattr(c10_sampling, "ob_powersofx_lemmas"):
+        chk.add("powersofx-random:lemmas", c10_sampling.ob_powersofx_lemmas)
 
 
 def main(argv=None):
